@@ -9,4 +9,14 @@ def tag : Net → Kind → Nat
 /-- the inverse lookup by the book: which (network, type) a byte denotes, if any -/
 def untag (b : Nat) : Option (Net × Kind) :=
   (Net.all.flatMap fun n => Kind.all.map fun k => (n, k)).find? fun p => tag p.1 p.2 = b
+/-- the address-type lookup by the book, on an arbitrary blob under a requested network: the first byte must be one of the
+three tags of THAT network; an integrated address needs at least tag ‖ spend ‖ view ‖ payment id = 73 bytes and carries
+bytes 65..73 as its payment id; the two other types carry none; the empty blob denotes nothing.
+(Formerly `Drv.specAddrType`, the spec side of the `addrtype` operation.) -/
+def addrType (net : Net) (b : List UInt8) : Option (Kind × List UInt8) :=
+  match b with
+  | [] => none
+  | t :: _ => match untag t.toNat with
+    | some (n, k) => if n ≠ net then none else if k = .Integrated then (if b.length < 73 then none else some (k, (b.drop 65).take 8)) else some (k, [])
+    | none => none
 end Spec
